@@ -244,6 +244,10 @@ def r11_5(ctx):
 
 
 def run(ctx):
+    from .sweep import r11_6 as _r11_6
+    _r11_6(ctx)
+    from .sweep import r11_7 as _r11_7
+    _r11_7(ctx)
     r11_5(ctx)
     # the refill gets the statuses of the workers the same pass reaped (borrowed from C09)
     from .c09 import r09_3 as _r09_3
